@@ -229,6 +229,146 @@ fn make_record(base: &[u8], r: &RecRecipe, id: String, allow_hash: bool) -> Text
     TextRecord { header, lines }
 }
 
+
+// ---------------------------------------------------------------- parser layer (in-process)
+
+const SEQ_ALPHABET: &[u8] = b"ACGTNRYSWKMBDHVUacgtnryswkmbdhvuEFIJLOPQXZefijlopqxz0123456789-*.";
+
+/// The reader every create path is built on (`GenomeIO`), judged against the reference
+/// normaliser on the rendered text of one file: the records with at least one base must come
+/// back in order, header verbatim, bases under the documented normalisation. A reader error
+/// is allowed by the statement ("create either fails ..."), silent loss or change is not.
+pub fn check_parser(f: &TextFile) -> Report {
+    use ragc_core::genome_io::GenomeIO;
+    let text = render(f);
+    let want: Vec<(String, String)> = f.records.iter().map(|r| (r.header.clone(), normalise_sequence(r.lines.join("\n").as_bytes()))).filter(|x| !x.1.is_empty()).collect();
+    let empty_before_later = f.records.iter().enumerate().any(|(i, r)| i + 1 < f.records.len() && normalise_sequence(r.lines.join("\n").as_bytes()).is_empty());
+    let odd = f.records.iter().any(|r| r.lines.iter().any(|l| l.bytes().any(|b| b > 64 && !b"ACGTNRYSWKMBDHVUacgtnryswkmbdhvu".contains(&b))));
+    let mut rep = Report::pass(want.len() >= 2 && (empty_before_later || odd || f.leading_blank_lines > 0 || f.crlf))
+        .label_if(empty_before_later, "parser:baseless-record-before-another")
+        .label_if(odd, "parser:non-IUPAC-letter")
+        .label_if(f.leading_blank_lines > 0, "parser:leading-blank-line")
+        .label_if(f.crlf, "parser:crlf")
+        .label_if(!f.final_newline, "parser:no-final-newline")
+        .label_if(f.records.iter().any(|r| r.lines.iter().any(|l| l.is_empty())), "parser:interior-blank-line");
+    let got = guarded(|| {
+        let mut g = GenomeIO::new(std::io::Cursor::new(text.clone()));
+        let mut out: Vec<(String, Vec<u8>)> = Vec::new();
+        loop {
+            match g.read_contig_converted() {
+                Ok(Some((id, codes))) => out.push((id, codes)),
+                Ok(None) => return Ok(out),
+                Err(e) => return Err(e.to_string()),
+            }
+            if out.len() > 100_000 {
+                return Err("harness: reader does not terminate".to_string());
+            }
+        }
+    });
+    let got = match got {
+        Ok(Ok(v)) => v,
+        Ok(Err(e)) if e.starts_with("harness:") => return Report::fail(e),
+        Ok(Err(_)) => return rep.label("parser:reader-error"),
+        Err(p) => return Report::fail(format!("FASTA reader panicked: {}", p)),
+    };
+    let mut got_txt: Vec<(String, String)> = Vec::new();
+    for (id, codes) in got {
+        if codes.is_empty() {
+            continue;
+        }
+        let mut s = String::with_capacity(codes.len());
+        for c in codes {
+            match c {
+                0..=15 => s.push(crate::util::CODE_LETTERS[c as usize] as char),
+                30 => s.push('N'),
+                x => return Report::fail(format!("FASTA reader produced symbol code {} (record {:?}), which no extraction path maps to a letter", x, id)),
+            }
+        }
+        got_txt.push((id, s));
+    }
+    if got_txt.len() != want.len() {
+        rep.verdict = Verdict::Fail(format!("FASTA reader returns {} records with bases, the text holds {} (headers read: {:?})", got_txt.len(), want.len(), got_txt.iter().map(|x| x.0.clone()).take(6).collect::<Vec<_>>()));
+        return rep;
+    }
+    for (i, (g, w)) in got_txt.iter().zip(want.iter()).enumerate() {
+        if g.0 != w.0 {
+            rep.verdict = Verdict::Fail(format!("record {}: header read as {:?}, written {:?}", i, g.0, w.0));
+            return rep;
+        }
+        if g.1 != w.1 {
+            let at = g.1.bytes().zip(w.1.bytes()).position(|(a, b)| a != b).unwrap_or(g.1.len().min(w.1.len()));
+            rep.verdict = Verdict::Fail(format!("record {} ({:?}): bases differ from the normalised input: lengths {} vs {}, first difference at {}", i, w.0, g.1.len(), w.1.len(), at));
+            return rep;
+        }
+    }
+    rep
+}
+
+fn clean_header(mut h: String, idx: usize) -> String {
+    // the domain of the property: non-empty printable headers that start with a non-blank
+    // character other than '>' and carry no trailing blanks (the reader trims both ends)
+    while h.ends_with(' ') || h.ends_with('\t') {
+        h.pop();
+    }
+    let first_ok = h.chars().next().map(|c| c != ' ' && c != '\t' && c != '>').unwrap_or(false);
+    if !first_ok {
+        h = format!("r{}{}", idx, h.trim_start());
+    }
+    h
+}
+
+fn parser_file_strategy() -> impl Strategy<Value = TextFile> {
+    let line = prop_oneof![
+        6 => prop::collection::vec(prop::sample::select(SEQ_ALPHABET.to_vec()), 1..80).prop_map(|v| String::from_utf8(v).unwrap()),
+        2 => prop::collection::vec(prop::sample::select(b"ACGT".to_vec()), 1..200).prop_map(|v| String::from_utf8(v).unwrap()),
+        2 => Just(String::new()),
+        1 => prop::collection::vec(prop::sample::select(b"0123456789-*.".to_vec()), 1..12).prop_map(|v| String::from_utf8(v).unwrap()),
+    ];
+    let record = ("[!-~]{1,12}( [ -~]{0,12}){0,3}", prop::collection::vec(line, 0..6));
+    (prop::collection::vec(record, 1..7), prop_oneof![3 => Just(0u8), 1 => 1u8..4], any::<bool>(), any::<bool>()).prop_map(|(recs, leading, crlf, final_newline)| {
+        let records = recs.into_iter().enumerate().map(|(i, (h, lines))| TextRecord { header: clean_header(h, i), lines }).collect();
+        TextFile { stem: "p".to_string(), leading_blank_lines: leading, records, crlf, final_newline }
+    })
+}
+
+/// libFuzzer leg: bytes -> one FASTA file in the same structured form
+pub fn from_fuzz(data: &[u8]) -> TextFile {
+    use crate::fuzzing::Cur;
+    let mut c = Cur::new(data);
+    let flags = c.u8();
+    let leading = if flags & 0x30 == 0x30 { 1 + (flags >> 6) } else { 0 };
+    let mut records = Vec::new();
+    let mut idx = 0;
+    loop {
+        let hl = 1 + (c.u8() % 24) as usize;
+        let h: String = c.take(hl).iter().map(|&b| (0x20 + b % 95) as char).collect();
+        let nlines = c.u8() % 6;
+        let mut lines = Vec::new();
+        for _ in 0..nlines {
+            let b = c.u8();
+            if b < 40 {
+                lines.push(String::new());
+                continue;
+            }
+            let n = 1 + (b as usize - 40) % 60;
+            lines.push(c.take(n).iter().map(|&x| SEQ_ALPHABET[x as usize % SEQ_ALPHABET.len()] as char).collect());
+        }
+        records.push(TextRecord { header: clean_header(h, idx), lines });
+        idx += 1;
+        if c.is_empty() || records.len() >= 12 {
+            break;
+        }
+    }
+    TextFile { stem: "p".to_string(), leading_blank_lines: leading, records, crlf: flags & 1 == 1, final_newline: flags & 2 == 2 }
+}
+
+pub fn fuzz_seeds() -> Vec<Vec<u8>> {
+    vec![
+        vec![2, 3, b'c', b'h', b'r', b'1', 2, 50, 0, 1, 2, 3, 4, 5, 6, 7, 8, 9, 10, 60, 0, 1, 2, 3, 0, 1, 2, 3, 0, 1, 2, 3, 0, 1, 2, 3, 0, 1, 2, 3, 4, 2, b'x', b'y', b'z', 0, 3, b'e', b'n', b'd', 1, 45, 32, 33, 34, 35, 36],
+        vec![0x33, 1, b'a', 0, 1, b'b', 1, 41, 40],
+    ]
+}
+
 fn strat() -> impl Strategy<Value = TextCase> {
     let params = (9u32..16, 40u32..300, 15u32..21, 1u32..5, prop_oneof![Just(50u32), 2u32..9]).prop_map(|(k, segment_size, min_match, threads, pack)| Params {
         k,
@@ -273,9 +413,21 @@ pub fn run(ctx: &Ctx, stats: &mut Stats) {
     let c2 = ctx.clone();
     let n = ctx.tier.pick(480, 10_000);
     run_prop(ctx, stats, "texts", n, strat(), &move |c: &TextCase| check_in(&c2, c));
+    // parser layer: the FASTA reader alone, in-process, against the reference normaliser
+    let np = ctx.tier.pick(1_500_000, 30_000_000);
+    run_prop(ctx, stats, "parser", np, parser_file_strategy(), &check_parser);
+    if ctx.tier == Tier::Thorough || std::env::var("VERIF_FUZZ").is_ok() {
+        crate::fuzzing::run_stage(ctx, stats, "fasta", ctx.tier.pick(400_000, 8_000_000));
+    }
 }
 
-pub fn replay(ctx: &Ctx, _stage: &str, case: &Value) -> Report {
+pub fn replay(ctx: &Ctx, stage: &str, case: &Value) -> Report {
+    if stage == "parser" || stage == "fuzz-fasta" {
+        return match from_case::<TextFile>(case) {
+            Ok(f) => check_parser(&f),
+            Err(e) => Report::fail(e),
+        };
+    }
     match from_case::<TextCase>(case) {
         Ok(c) => check_in(ctx, &c),
         Err(e) => Report::fail(e),
@@ -285,7 +437,7 @@ pub fn replay(ctx: &Ctx, _stage: &str, case: &Value) -> Report {
 pub const INFO: PropInfo = PropInfo {
     id: "C16",
     level: "exploration",
-    rule: "cases = 1..4 FASTA files written byte for byte from a grammar: records with printable-ASCII headers (id plus 0..4 description fields), sequence lines cut from a shared random base sequence (so later samples become LZ deltas) with non-IUPAC letters EFIJLOPQXZ (either case), IUPAC codes, digits and '-*. ' sprinkled in, lower case, line widths 1..120 or unwrapped, interior blank lines, header-only records, records holding only non-letters or only a blank line, 0..2 leading blank lines, CR/LF, missing final newline; per-sample files (plain or PanSN headers) or one PanSN file with two samples. Everything goes through the real binary: oracle = `ragc create` exits non-zero, OR listset exits 0 and every listed sample extracts with exit 0 and the records with at least one base equal the input under the documented normalisation (upper case, bytes <= 64 dropped, non-IUPAC letters -> N), every input record with a base present and in order. Non-trivial = a non-IUPAC letter outside the first record, or a header-only record followed by another record, or a leading blank line; distinct = distinct case.",
+    rule: "cases = 1..4 FASTA files written byte for byte from a grammar: records with printable-ASCII headers (id plus 0..4 description fields), sequence lines cut from a shared random base sequence (so later samples become LZ deltas) with non-IUPAC letters EFIJLOPQXZ (either case), IUPAC codes, digits and '-*. ' sprinkled in, lower case, line widths 1..120 or unwrapped, interior blank lines, header-only records, records holding only non-letters or only a blank line, 0..2 leading blank lines, CR/LF, missing final newline; per-sample files (plain or PanSN headers) or one PanSN file with two samples. Everything goes through the real binary: oracle = `ragc create` exits non-zero, OR listset exits 0 and every listed sample extracts with exit 0 and the records with at least one base equal the input under the documented normalisation (upper case, bytes <= 64 dropped, non-IUPAC letters -> N), every input record with a base present and in order. Stage `parser` (and the libFuzzer target fz_fasta in the thorough tier): single files over the alphabet IUPAC + EFIJLOPQXZ (both cases) + digits + '-*.', blank lines anywhere, base-less records, CR/LF, missing final newline, judged in-process: ragc's FASTA reader must return exactly the records with at least one base, header verbatim, bases = the normalised input (or an error). Non-trivial = a non-IUPAC letter outside the first record, or a header-only record followed by another record, or a leading blank line; distinct = distinct case.",
     assumptions: &["headers are non-empty, start with a non-blank character other than '>' and carry no trailing blanks; characters above 64 that are not letters are not generated", "a timeout is inconclusive"],
     needs_cli: true,
     needs_checked: false,
